@@ -250,6 +250,61 @@ def parse_tla_tuple(line):
         return line
 
 
+def validate_trace_sharded(ctx, module, cfg, trace_path, shards=6, timeout=1800, heap="4g", extra_env=None):
+    """Like validate_trace, but splits the records over `shards` TLC processes run in parallel.
+    Returned failure indices refer to lines of the original file."""
+    import threading
+    lines = open(trace_path).read().split("\n")
+    lines = [x for x in lines if x.strip()]
+    shards = max(1, min(shards, len(lines) // 200 + 1))
+    if shards == 1:
+        return validate_trace(ctx, module, cfg, trace_path, timeout=timeout, heap=heap, extra_env=extra_env)
+    parts = []
+    for k in range(shards):
+        idx = list(range(k, len(lines), shards))
+        path = trace_path + ".shard%d" % k
+        with open(path, "w") as f:
+            for i in idx:
+                f.write(lines[i] + "\n")
+        parts.append((path, idx))
+    results = [None] * shards
+    errors = []
+
+    def work(k):
+        try:
+            sub = Ctx.__new__(Ctx)
+            sub.__dict__.update(ctx.__dict__)
+            sub.cov = {"tlc_runs": [], "drift": []}
+            sub.work = ctx.path("shard%d" % k)
+            os.makedirs(sub.work, exist_ok=True)
+            n, fails = validate_trace(sub, module, cfg, parts[k][0], timeout=timeout, heap=heap, extra_env=extra_env)
+            results[k] = (n, fails, sub.cov)
+        except Exception as e:  # noqa
+            errors.append(e)
+
+    ts = [threading.Thread(target=work, args=(k,)) for k in range(shards)]
+    for t in ts:
+        t.start()
+    for t in ts:
+        t.join()
+    if errors:
+        raise errors[0]
+    total = 0
+    fails = []
+    for k in range(shards):
+        n, fs, cov = results[k]
+        total += n
+        for f in fs:
+            f["index"] = parts[k][1][f["index"] - 1] + 1
+            fails.append(f)
+        for d in cov["drift"]:
+            d["index"] = parts[k][1][d["index"] - 1] + 1
+            ctx.cov["drift"].append(d)
+        ctx.cov["tlc_runs"] += cov["tlc_runs"]
+    fails.sort(key=lambda f: f["index"])
+    return total, fails
+
+
 def validate_trace(ctx, module, cfg, trace_path, timeout=1200, heap="8g", extra_env=None):
     """Direction B: TLC validates an ndjson file of records. Returns (n_records, failures)
     failures = list of dict(index, id, reasons) from <<"PFAIL", l, id, reasons>> lines;
